@@ -1,10 +1,11 @@
 // C13: all ways of reading one file agree (BMP, PNM, TARGA through FILE* / file name).
 // Compile-time shape: FORMAT, MODE (1 partial read == crop, 2 read_and_convert == color_convert of the native read, 3 read_view into
-// a pre-allocated view == read_image and writes nothing outside it, 4 file name == FILE*, 5 read_image_info == dimensions of read_image,
+// a pre-allocated view == read_image and writes nothing outside it, 4 file name == FILE*, 8 std::istream == FILE*, 9 scanline reader row after skipped rows == image row, 5 read_image_info == dimensions of read_image,
 // 6 destination view smaller than the region -> exception and destination untouched), PIX (native pixel type), CPIX (conversion target).
 // Run-time-constant shape: vp_param(0) = file length, 1..11 = the format's header fields (io.hpp), 12,13 = image width,height,
 // 14..17 = sub-rectangle x0,y0,dx,dy.  Symbolic: pixel data and all non-structural header bytes, probed coordinates.
 #include "../io/io.hpp"
+#include <istream>
 #if FORMAT == 1
 #include <boost/gil/extension/io/bmp.hpp>
 using tag_t = gil::bmp_tag;
@@ -25,6 +26,9 @@ using img_t = gil::image<pix_t, false>;
 #define CPIX gil::gray8_pixel_t
 #endif
 using cimg_t = gil::image<CPIX, false>;
+#ifndef SPIX
+#define SPIX pix_t
+#endif
 
 extern "C" void h_agree(void) {
     file_builder f((unsigned long)vp_param(0));
@@ -70,6 +74,13 @@ extern "C" void h_agree(void) {
     vp_assert(N.dimensions() == R.dimensions(), "agree.name_and_file_dimensions");
     vp_assume(x < W && y < H);
     vp_assert(gil::view(N)(x, y) == gil::view(R)(x, y), "agree.name_and_file_pixels");
+#elif MODE == 8
+    // the same bytes through a std::istream (GIL's istream_device over the stream model) give the same image as through FILE*
+    img_t N;
+    { std::istream& in = *static_cast<std::istream*>(vp_istream()); gil::read_image(in, N, tag_t()); }
+    vp_assert(N.dimensions() == R.dimensions(), "agree.istream_and_file_dimensions");
+    vp_assume(x < W && y < H);
+    vp_assert(gil::view(N)(x, y) == gil::view(R)(x, y), "agree.istream_and_file_pixels");
 #elif MODE == 5
     { FILE* fp = (FILE*)vp_fopen_read(); auto b = gil::read_image_info(fp, tag_t());
       vp_assert((long)b._info._width == (long)R.width() && (long)b._info._height == (long)R.height(), "agree.info_reports_read_image_dimensions"); }
@@ -89,6 +100,25 @@ extern "C" void h_agree(void) {
         vp_assume(x < W);
         pix_t const* px = reinterpret_cast<pix_t const*>(&row[0]);
         vp_assert(px[x] == gil::view(R)(x, yy), "agree.scanline_row_equals_image_row");
+    }
+#elif MODE == 9
+    // scanline reader with skipped rows: rows 0..yy-1 are skipped (what scanline_read_iterator does when it is incremented without being
+    // dereferenced), row yy is read and holds the same pixels as row yy of the reference image
+    {
+        FILE* fp = (FILE*)vp_fopen_read();
+        using device_t = typename gil::get_read_device<FILE*, tag_t>::type;
+        using reader_t = gil::scanline_reader<device_t, tag_t>;
+        device_t dev(fp);
+        reader_t reader(dev, gil::image_read_settings<tag_t>());
+        vp_assert((int)reader._info._width == W && (int)reader._info._height == H, "agree.scanline_reader_dimensions");
+        std::vector<gil::byte_t> row(reader._scanline_length);
+        int yy = vp_param(15);
+        for (int k = 0; k < yy; ++k) reader.skip(&row[0], k);
+        reader.read(&row[0], yy);
+        vp_assume(x < W);
+        // scanlines are delivered in the file's native pixel type (SPIX: bgr8 for 24-bit BMP / TARGA); pixels compare by colour
+        SPIX const* px = reinterpret_cast<SPIX const*>(&row[0]);
+        vp_assert(px[x] == gil::view(R)(x, yy), "agree.scanline_row_after_skip_equals_image_row");
     }
 #elif MODE == 6
     img_t D(W, H);
